@@ -247,3 +247,15 @@ package openapi3filter
 //@   ensures [handler-iff-valid] handlerCalls == old(handlerCalls) + (vhOK ? 1 : 0)
 //@   ensures [error-answered-once] encCalls == old(encCalls) + (vhOK ? 0 : 1)
 //@   tag C14
+
+// Every method of the two wrappers is under contract: the assumed contract of the wrapped handler
+// ("through the strict wrapper nothing reaches the client", "through the warn wrapper every call
+// reaches the client unchanged") quantifies over all of them.
+//@ allmethods strictResponseWrapper @C14
+//@ allmethods warnResponseWrapper @C14
+
+//@ func (*warnResponseWrapper).Flush
+//@   requires wr != nil && warnInv(wr)
+//@   modifies cliHdr, cliCode
+//@   ensures cliFlushEffect() && warnInv(wr)
+//@   tag C14
